@@ -18,8 +18,10 @@ VERIF = os.path.dirname(os.path.dirname(os.path.abspath(__file__)))
 REPO = os.environ.get("VERIF_REPO", "/repo")
 
 
-def sh(cmd, cwd=None, timeout=3600):
-    return subprocess.run(cmd, cwd=cwd, capture_output=True, text=True, timeout=timeout)
+def sh(cmd, cwd=None, timeout=3600, env=None):
+    e = dict(os.environ)
+    e.update(env or {})
+    return subprocess.run(cmd, cwd=cwd, capture_output=True, text=True, timeout=timeout, env=e)
 
 
 def main():
@@ -45,11 +47,12 @@ def main():
             print(mid, entry["error"])
             continue
         demo = os.path.join(d, "demo.py")
-        clean = sh(["/venv/bin/python", "-W", "ignore", demo]).returncode
+        denv = meta.get("demo_env")  # e.g. a pinned PYTHONHASHSEED for a demonstration that depends on a set order
+        clean = sh(["/venv/bin/python", "-W", "ignore", demo], env=denv).returncode
         try:
             sh(["git", "apply", patch], cwd=REPO)
             entry["demo_exit_clean"] = clean
-            entry["demo_exit_with_change"] = sh(["/venv/bin/python", "-W", "ignore", demo]).returncode
+            entry["demo_exit_with_change"] = sh(["/venv/bin/python", "-W", "ignore", demo], env=denv).returncode
             for c in checks:
                 t0 = time.time()
                 r = sh([os.path.join(VERIF, "check"), c, "--tier", "quick"], cwd=VERIF)
